@@ -44,6 +44,9 @@ def main(c):
                     if "summary" in j:
                         c.cov["parts"][f"stream-{variant}-{prof}"] = j["summary"]
                         continue
+                    if j.get("kind") == "wedge":
+                        c.violation("c03.wedge", dict(j, profile=prof), {"bytes_hex": j["hex"], "decoder": variant})
+                        continue
                     sig = j["what"].split(" [")[0][:40]
                     if sig in seen:
                         continue
@@ -58,7 +61,7 @@ def main(c):
         for j in vf.read_jsonl(outp):
             if "summary" in j:
                 c.cov["parts"][f"sweep-{prof}"] = j["summary"]
-                c.cov["evaluations"] = c.cov.get("evaluations", 0) + j["summary"]["decoder_runs"]
+                c.cov["evaluations"] = c.cov.get("evaluations", 0) + j["summary"].get("decoder_runs", 0)
                 continue
             c.violation("c03." + j["kind"], dict(j, profile=prof), {"bytes_hex": j["hex"], "codec": j["proto"], "profile": prof})
     c.cov["distinct_nontrivial"] = total
